@@ -173,7 +173,7 @@ type Program struct {
 // Prelude names: host functions and builtins are bound to chunk-level locals in
 // the first line of every rendered program, so that setfenv experiments cannot
 // hide them. The model pre-binds the same names in its root scope.
-var PreludeHost = []string{"emit", "snap", "clobber", "luadepth", "hostcall", "hostpcall"}
+var PreludeHost = []string{"emit", "snap", "clobber", "luadepth", "hostcall", "hostpcall", "hostyield"}
 var PreludeBuiltin = []struct{ Local, Global string }{
 	{"pcall", "pcall"}, {"xpcall", "xpcall"}, {"error", "error"},
 	{"cocreate", "coroutine.create"}, {"coresume", "coroutine.resume"}, {"coyield", "coroutine.yield"},
